@@ -56,6 +56,13 @@ def make_trace(seed, tier, events=True, plan_override=None, name="ledger"):
             with open(tmp) as f:
                 out.write(f.read())
             os.remove(tmp)
+        if name == "ledger":
+            # committed regression scenarios (one per recorded finding, and any added later)
+            regdir = os.path.join(os.path.dirname(WORK), "scenarios")
+            for fn in sorted(os.listdir(regdir)) if os.path.isdir(regdir) else []:
+                if fn.endswith(".ndjson"):
+                    with open(os.path.join(regdir, fn)) as f:
+                        out.write(f.read())
 
     def produce(path):
         args = ["run", "--scenarios", scen_path, "--trace", path, "--update-timeout", "1200"]
